@@ -50,17 +50,20 @@ type restartReport struct {
 	Listeners []restoredListener `json:"listeners"`
 }
 
-func restartChild(cfg childCfg, say func(string)) {
+// startReal runs the real (*Teamserver).Start() on dir and waits until it has finished
+// restoring (nil: already reported why not).
+func startReal(dir string, say func(string)) *server.Teamserver {
+	cfg := childCfg{Dir: dir}
 	if err := os.Chdir(cfg.Dir); err != nil {
 		say("ERROR " + err.Error())
-		return
+		return nil
 	}
 	tsx.Quiet()
 	tsx.SetLoot(filepath.Join(cfg.Dir, "loot"))
 	d, err := db.DatabaseNew("data/teamserver.db") // Start() re-opens <cwd>/<this path>
 	if err != nil {
 		say("ERROR " + err.Error())
-		return
+		return nil
 	}
 	ts := &server.Teamserver{DB: d, Profile: tsx.BasicProfile(map[string]string{"op": "pw"}, nil)}
 	returned := make(chan struct{})
@@ -71,7 +74,7 @@ func restartChild(cfg childCfg, say func(string)) {
 		select {
 		case <-returned:
 			say("RETURNED") // Start() gave up before the end of the restore
-			return
+			return nil
 		case <-time.After(2 * time.Millisecond):
 		}
 		for _, e := range ts.EventsList {
@@ -83,9 +86,21 @@ func restartChild(cfg childCfg, say func(string)) {
 	}
 	if !done {
 		say("TIMEOUT")
-		return
+		return nil
 	}
 	time.Sleep(5 * time.Millisecond)
+	return ts
+}
+
+func restartChild(cfg childCfg, say func(string)) {
+	ts := startReal(cfg.Dir, say)
+	if ts == nil {
+		return
+	}
+	if cfg.Mode == "segment" {
+		segmentChild(cfg, ts, say)
+		return
+	}
 	var rep restartReport
 	for _, a := range ts.Agents.Agents {
 		if a == nil {
@@ -131,17 +146,89 @@ func restartChild(cfg childCfg, say func(string)) {
 // errInfra marks a failure of the harness machinery (not of the teamserver).
 type errInfra struct{ error }
 
-func runRestart(dir string) (restartReport, error) {
-	var rep restartReport
-	cf := filepath.Join(dir, "restart.json")
-	os.WriteFile(cf, []byte(mustJSON(childCfg{Mode: "restart", Dir: dir})), 0o644)
-	pr, pw, err := os.Pipe()
+// segState is what the harness carries across a restart (the teamserver carries nothing but its files).
+type segState struct {
+	Seeds map[int]byte        `json:"seeds"`
+	Req   uint32              `json:"req"`
+	Lmod  []LSpec             `json:"lmod"`
+	Lorig map[string]HTTPSpec `json:"lorig"`
+}
+
+type segReport struct {
+	Next  int                   `json:"next"` // index of the first operation of the next segment (len(ops): done)
+	St    segState              `json:"st"`
+	Want  map[string]AgentImage `json:"want"`
+	Pairs []pair                `json:"pairs"`
+}
+
+// segmentChild: under the real Start(), apply the operations from cfg.From up to the next
+// effective restart (or the end) and report the state the server holds.
+func segmentChild(cfg childCfg, ts *server.Teamserver, say func(string)) {
+	w, err := pvx.WrapTS(cfg.Dir, ts)
+	if err != nil {
+		say("ERROR " + err.Error())
+		return
+	}
+	r := newRun(w, cfg.H)
+	if cfg.St.Seeds != nil {
+		r.seeds = cfg.St.Seeds
+	}
+	r.req, r.lmod, r.lorig = cfg.St.Req+0x100, cfg.St.Lmod, cfg.St.Lorig
+	stop := false
+	r.restartFn = func() bool {
+		if !reopenable(w) {
+			return false
+		}
+		stop = true
+		return true
+	}
+	rep := segReport{Next: len(cfg.H.Ops)}
+	for i := cfg.From; i < len(cfg.H.Ops); i++ {
+		r.apply(cfg.H.Ops[i])
+		if stop {
+			rep.Next = i + 1
+			break
+		}
+	}
+	rep.St = segState{Seeds: r.seeds, Req: r.req, Lmod: r.lmod, Lorig: r.lorig}
+	rep.Want = map[string]AgentImage{}
+	for _, a := range ts.Agents.Agents {
+		if a != nil && a.Active {
+			rep.Want[a.NameID] = imageOf(a)
+		}
+	}
+	rep.Pairs = memPairs(w)
+	say("SEGMENT " + mustJSON(rep))
+}
+
+func runSegment(dir string, h History, from int, st segState) (segReport, error) {
+	var rep segReport
+	line, err := runChild(dir, childCfg{Mode: "segment", Dir: dir, H: h, From: from, St: st}, "SEGMENT ")
 	if err != nil {
 		return rep, err
 	}
-	self, err := os.Executable()
+	return rep, json.Unmarshal([]byte(line), &rep)
+}
+
+func runRestart(dir string) (restartReport, error) {
+	var rep restartReport
+	line, err := runChild(dir, childCfg{Mode: "restart", Dir: dir}, "REPORT ")
 	if err != nil {
 		return rep, err
+	}
+	return rep, json.Unmarshal([]byte(line), &rep)
+}
+
+func runChild(dir string, cfg childCfg, prefix string) (string, error) {
+	cf := filepath.Join(dir, "child-cfg.json")
+	os.WriteFile(cf, []byte(mustJSON(cfg)), 0o644)
+	pr, pw, err := os.Pipe()
+	if err != nil {
+		return "", err
+	}
+	self, err := os.Executable()
+	if err != nil {
+		return "", err
 	}
 	cmd := exec.Command(self, "-test.run=^TestC10Child$", "-test.count=1", "-test.timeout=120s")
 	cmd.Env = append(os.Environ(), "VERIF_C10_CHILD="+cf, "VERIF_OUT=", "VERIF_REPLAY=")
@@ -150,7 +237,7 @@ func runRestart(dir string) (restartReport, error) {
 	if err := cmd.Start(); err != nil {
 		pr.Close()
 		pw.Close()
-		return rep, err
+		return "", err
 	}
 	pw.Close()
 	defer func() { cmd.Process.Signal(syscall.SIGKILL); cmd.Wait(); pr.Close() }()
@@ -160,17 +247,17 @@ func runRestart(dir string) (restartReport, error) {
 	for {
 		ln, err := rd.ReadString('\n')
 		ln = strings.TrimSpace(ln)
-		if strings.HasPrefix(ln, "REPORT ") {
-			return rep, json.Unmarshal([]byte(ln[7:]), &rep)
+		if strings.HasPrefix(ln, prefix) {
+			return ln[len(prefix):], nil
 		}
 		if strings.HasPrefix(ln, "ERROR") || ln == "TIMEOUT" {
-			return rep, errInfra{fmt.Errorf("child: %s", ln)}
+			return "", errInfra{fmt.Errorf("child: %s", ln)}
 		}
 		if ln == "RETURNED" {
-			return rep, fmt.Errorf("Start() returned before it had restored the sessions")
+			return "", fmt.Errorf("Start() returned before it had restored the sessions")
 		}
 		if err != nil {
-			return rep, fmt.Errorf("child ended without a report: %v", err)
+			return "", fmt.Errorf("child ended without a report: %v", err)
 		}
 	}
 }
@@ -187,7 +274,17 @@ func runC(h History, mode string) *core.Violation {
 	}
 	defer w.Close()
 	r := newRun(w, h)
-	for _, op := range h.Ops {
+	// the first segment runs in this process; at every effective restart the rest of the
+	// history moves to a new child process that runs the real Start() first
+	handover := -1
+	for i, op := range h.Ops {
+		if op.K == "restart" {
+			if reopenable(w) {
+				handover = i + 1
+				break
+			}
+			continue
+		}
 		r.apply(op)
 	}
 	r.finish() // the restarted server binds its own ephemeral ports
@@ -200,7 +297,32 @@ func runC(h History, mode string) *core.Violation {
 	}
 	pairs := memPairs(w)
 
-	rep, err := runRestart(w.Dir)
+	nseg := 0
+	st := segState{Seeds: r.seeds, Req: r.req, Lmod: r.lmod, Lorig: r.lorig}
+	for handover >= 0 && err == nil {
+		var sr segReport
+		sr, err = runSegment(w.Dir, h, handover, st)
+		if err != nil {
+			break
+		}
+		nseg++
+		want, pairs, st = sr.Want, sr.Pairs, sr.St
+		r.lmod, r.lorig = st.Lmod, st.Lorig
+		handover = -1
+		if sr.Next < len(h.Ops) {
+			handover = sr.Next
+		}
+	}
+	if nseg > 0 {
+		statsMu.Lock()
+		statsB["segments_under_real_start"] += nseg
+		core.SetExtra("segments_under_real_start", statsB["segments_under_real_start"])
+		statsMu.Unlock()
+	}
+	var rep restartReport
+	if err == nil {
+		rep, err = runRestart(w.Dir)
+	}
 	if _, infra := err.(errInfra); infra {
 		// the child could not be observed (machine overloaded): no verdict for this case
 		statsMu.Lock()
@@ -370,7 +492,7 @@ func TestC10c(t *testing.T) {
 	}
 	core.Run(t, core.Spec[History]{
 		Property: "C10", Sub: "c",
-		Rule: "histories as in (a) (1-4 agents, 0-16 operations, one third of the listener adds HTTP on ephemeral ports) applied in-process; then a child process runs the real (*Teamserver).Start() on the same directory and reports its sessions (25 recorded values, key, IV, Parent, Links) and its listeners (handlers.HTTPConfig / SMBConfig / ExternalConfig as started). Oracle: restarted state == state of the server before the restart: same active sessions and values, same parent/child structure among them (no nil entries), same listeners with every operator-configured field (Hosts, HostBind, HostRotation, PortBind, PortConn, UserAgent, Headers, Uris, HostHeader, Secure, Proxy; PipeName; Endpoint). Non-trivial as in (a)",
+		Rule: "histories as in (a) (1-4 agents, 0-16 operations, one third of the listener adds HTTP on ephemeral ports) plus restart operations in the middle and the crafted update / re-registration families; the first segment is applied in-process, at every effective restart the rest of the history moves to a NEW child process that first runs the real (*Teamserver).Start() on the directory and then applies the following operations to that server (extra.segments_under_real_start); finally a child process runs the real (*Teamserver).Start() on the same directory and reports its sessions (25 recorded values, key, IV, Parent, Links) and its listeners (handlers.HTTPConfig / SMBConfig / ExternalConfig as started). Oracle: restarted state == state of the server before the restart: same active sessions and values, same parent/child structure among them (no nil entries), same listeners with every operator-configured field (Hosts, HostBind, HostRotation, PortBind, PortConn, UserAgent, Headers, Uris, HostHeader, Secure, Proxy; PipeName; Endpoint). Non-trivial as in (a)",
 		Gen:   genC, Check: checkC, Classify: classifyH,
 		Assumptions: []string{
 			"the restarted server is observed through its exported fields (Agents, Listeners) once Start() has appended the profile event, its last action before blocking",
